@@ -1098,15 +1098,16 @@ class MoneyConverter:
             raise ValueError(f"Not a valid period: {validity}.")
         # check type of validity
         type_of_validity = self._type_of_validity
-        if type_of_validity is None:
-            self._type_of_validity = type(validity)
-        elif type_of_validity is not type(validity):
+        if (type_of_validity is not None and
+                type_of_validity is not type(validity)):
             raise ValueError('Different types of validity periods given.')
-        # update internal dict
+        # create all rates first, so that nothing is changed if one fails
         base_currency = self._base_currency
-        rates = (ExchangeRate(base_currency, unit_multiple, term_currency,
+        rates = [ExchangeRate(base_currency, unit_multiple, term_currency,
                               term_amount)
-                 for term_currency, term_amount, unit_multiple in rate_specs)
+                 for term_currency, term_amount, unit_multiple in rate_specs]
+        # update internal dict
+        self._type_of_validity = type(validity)
         # use the resolved currency as key (it may have been given as code)
         it = (((validity, rate.term_currency), rate) for rate in rates)
         self._rate_dict.update(it)
